@@ -443,9 +443,12 @@ pub fn exec_e2e(c: &ECase) -> Outcome {
     use amq_protocol::frame::AMQPFrame;
     use amq_protocol::protocol::channel::AMQPMethod as Chan;
     use amq_protocol::protocol::{channel, AMQPClass};
-    let max = (c.channel_max % 8 + 1) as u16;
+    // mostly tiny tables (exhaustion is cheap); one session in eight negotiates a table whose top
+    // end is at a type or protocol boundary
+    let max = if c.channel_max >= 224 { [255u16, 256, 65534, 65535][c.channel_max as usize % 4] } else { (c.channel_max % 8 + 1) as u16 };
     let scfg = ServerCfg {
-        channel_max: max,
+        // 0 = "no limit" is how a server offers the full 16-bit space
+        channel_max: if max == 65535 && c.channel_max >= 240 { 0 } else { max },
         ..Default::default()
     };
     let mut sess = open_session(&ClientCfg::default(), scfg, vec![], AutoBroker::new(4));
@@ -610,6 +613,12 @@ pub fn exec_e2e(c: &ECase) -> Outcome {
     if exhausted {
         o.labels.push("exhausted".into());
     }
+    if max > 8 {
+        o.labels.push(format!("channel_max={}", max));
+        if opened.iter().any(|i| *i == max) {
+            o.labels.push("top-id-opened".into());
+        }
+    }
     o
 }
 
@@ -622,6 +631,8 @@ fn estrat(_t: Tier) -> BoxedStrategy<ECase> {
         2 => any::<u16>().prop_map(IdSel::Open),
         3 => any::<u16>().prop_map(IdSel::Freed),
         3 => (0u16..10).prop_map(IdSel::Any),
+        1 => (250u16..260).prop_map(IdSel::Any),
+        1 => (65530u16..=65535).prop_map(IdSel::Any),
     ];
     let op = prop_oneof![
         4 => sel.prop_map(EOp::OpenExplicit),
@@ -649,7 +660,7 @@ pub fn parts() -> Vec<Box<dyn PartDyn>> {
     }),
     Box::new(Part::<ECase> {
         name: "e2e",
-        rule: "the same op language through the public API on the mock transport: channel_max 1-8 negotiated in the handshake, up to 59 ops (open_channel(Some(id)) with boundary / open / freed ids, open_channel(None), Channel::close, drop, server-initiated channel close); oracle: the BTreeSet model after every op (returned id, UnavailableChannelId / ExhaustedChannelIds), every call returns, no I/O-thread panic, the Channel.Open frames on the wire carry exactly the returned ids, the session closes Ok; non-trivial = explicit and automatic allocation mixed after a free, or id space exhausted; distinct by case hash",
+        rule: "the same op language through the public API on the mock transport: channel_max 1-8 (one session in eight: 255, 256, 65534 or 65535, the latter also offered as 0) negotiated in the handshake, up to 59 ops (open_channel(Some(id)) with boundary / open / freed ids, open_channel(None), Channel::close, drop, server-initiated channel close); oracle: the BTreeSet model after every op (returned id, UnavailableChannelId / ExhaustedChannelIds), every call returns, no I/O-thread panic, the Channel.Open frames on the wire carry exactly the returned ids, the session closes Ok; non-trivial = explicit and automatic allocation mixed after a free, or id space exhausted; distinct by case hash",
         cases: |t| t.pick(1500, 30_000),
         threads: 16,
         strategy: estrat,
